@@ -343,6 +343,29 @@ pub fn tx_slowstart(tier: Tier, depth: usize) -> Driver {
     Driver { name: "tx-slowstart".into(), cfg, prefix: vec![], alphabet, depth, state_cap: tier.pick(400_000, 6_000_000) }
 }
 
+/// Slow start with head-room for MTU probing (working size 528, ceiling 1452) while the peer sends
+/// data of its own: the two-segment allowance is two segments of the working size.
+pub fn tx_slowstart_mtu(tier: Tier, depth: usize) -> Driver {
+    let mut cfg = SoloCfg::tiny(MSS);
+    cfg.link_mtu = 1500;
+    cfg.rx_buf = 64 * 1024;
+    cfg.tx_init = 64 * 1024;
+    cfg.tx_max = 64 * 1024;
+    cfg.nagle = false;
+    cfg.peer_lens = vec![5];
+    let def = WndSpec::Default;
+    let alphabet = vec![
+        Act::Write(528),
+        Act::Write(3000),
+        state(AckSpec::All, def, SackSpec::None),
+        state(AckSpec::Plus(1), def, SackSpec::None),
+        Act::Deliver(Pkt::Data { off: 0, ack: AckSpec::Cur, wnd: def }),
+        Act::Deliver(Pkt::Data { off: 0, ack: AckSpec::Plus(1), wnd: def }),
+        Act::Tick,
+    ];
+    Driver { name: "tx-slowstart-mtu".into(), cfg, prefix: vec![], alphabet, depth, state_cap: tier.pick(300_000, 4_000_000) }
+}
+
 /// Window-limited sender whose segment size grows because the peer uses larger payloads.
 pub fn tx_window_mtu(tier: Tier, depth: usize) -> Driver {
     let mut cfg = SoloCfg::tiny(MSS);
@@ -725,6 +748,7 @@ pub fn all_drivers(tier: Tier) -> Vec<Driver> {
     v.push(nagle_recovery(tier, 6));
     v.push(tx_slowstart(tier, 6));
     v.push(tx_window_mtu(tier, 6));
+    v.push(tx_slowstart_mtu(tier, 6));
     v.extend(fsm_all(tier, 5));
     v.push(nagle(tier, true, 6));
     v.push(nagle(tier, false, 6));
